@@ -941,3 +941,22 @@ Theorem c14_code_analyze_request : forall c,
   = lift_call (analyze_request c).
 Proof. exact gen_call_analyze_request_eq. Qed.
 Print Assumptions c14_code_analyze_request.
+
+(* ================================================================== AmendedRequest::set_header itself (translated from the source) *)
+(** [set_header_list] -- the reading of AmendedRequest::set_header used in [c14_code_analyze_request] -- is the translation of the
+    function itself (theories/Gen2.v, [gen_am_set_header]: name and value converted and validated, the name lower-cased, then
+    ArrayVec::push read as [capped_push]; proofs/Gen2_equiv_setheader.v), and [capped_push] is the translated ArrayVec::push
+    (proofs/Gen2_equiv_arrayvec.v). *)
+From Hoot.proofs Require Import Gen2_equiv_setheader Gen2_equiv_arrayvec.
+Theorem c14_code_set_header : forall added k v, gen_am_set_header added k v = set_header_list added k v.
+Proof. exact gen_am_set_header_eq. Qed.
+Print Assumptions c14_code_set_header.
+Theorem c14_code_capped_push : forall T cap site n (arr : list T) v,
+  len arr = cap -> n <= cap ->
+  match capped_push cap site (gen_arrayvec_deref T n arr) v with
+  | Ok l' => exists arr', gen_arrayvec_push T n arr v = Ok (n + 1, arr', tt) /\ len arr' = cap /\ gen_arrayvec_deref T (n + 1) arr' = l'
+  | Panic _ => exists s, gen_arrayvec_push T n arr v = Panic s
+  | Err _ => False
+  end.
+Proof. exact gen_arrayvec_push_is_capped_push. Qed.
+Print Assumptions c14_code_capped_push.
